@@ -77,6 +77,20 @@ def build(spec):
         return MGrid(*[build(g) for g in spec["grids"]])
     if k == "flat":
         return FlatGrid(build(spec["grid"]), ordering=spec["ordering"])
+    if k == "sparse":
+        # a SparseGrid over a regular grid: level l+1 keeps exactly the children of the chosen refined pixels of level l
+        from nifty.re.multi_grid.grid import SparseGrid
+        base = build(spec["grid"])
+        fg = FlatGrid(base, ordering="nest")
+        maps = [np.arange(int(fg.at(0).shape[0]), dtype=np.int64)]
+        for lvl, frac in enumerate(spec["refine"]):
+            cur = maps[-1]
+            pick = cur[[i for i in range(len(cur)) if (i * 7 + lvl) % frac[1] < frac[0]]]
+            if pick.size == 0:
+                pick = cur[:1]
+            ch = np.asarray(fg.at(lvl).children(pick[None, :]))[0]
+            maps.append(np.sort(ch.reshape(-1)).astype(np.int64))
+        return SparseGrid(base, tuple(maps))
     if k in PHYS_KINDS:
         from nifty.re.multi_grid.grid_impl import BrokenLogGrid, LogGrid, SimpleOpenGrid
         kw = dict(min_shape=tuple(spec["min_shape"]), window_size=spec.get("window", 3), splits=spec.get("splits", 2),
@@ -106,7 +120,7 @@ def depth_of(spec):
         return spec["depth"]
     if k == "mgrid":
         return depth_of(spec["grids"][0])
-    return depth_of(spec["grid"])
+    return depth_of(spec["grid"])          # flat, sparse
 
 
 def leaves(spec):
@@ -352,8 +366,8 @@ def oracle(case, grid=None):
     d = grid.depth
     nd = int(grid.at(0).ndim)
     if not win:
-        inner_nd = int(grid.grid.at(0).ndim) if spec["kind"] == "flat" else nd
-        lv = leaves(spec["grid"] if spec["kind"] == "flat" else spec)
+        inner_nd = int(grid.grid.at(0).ndim) if spec["kind"] in ("flat", "sparse") else nd
+        lv = leaves(spec["grid"] if spec["kind"] in ("flat", "sparse") else spec)
         win = []
         for lf in lv:
             win += [1] if lf["kind"] == "hp" else [3] * len(lf.get("shape0", lf.get("min_shape", [0])))
@@ -373,7 +387,8 @@ def _oracle_levels(spec, grid, d, nd, win):
         sig = dict(kind=spec["kind"], level_has_children=level < d)
         # neighbourhoods: in range, centre present, translation consistent
         try:
-            nb = L.nbh(win)
+            # neighbours of a sparse-grid pixel need not be on the grid (insertion positions are returned): not checked
+            nb = None if spec["kind"] == "sparse" else L.nbh(win)
         except NotImplementedError:
             nb = None
         if nb is not None:
@@ -797,6 +812,15 @@ def run(ctx):
     for _ in range(ctx.n(2, 50)):
         specs.append(gen_spec(ctx.rng, ctx.quick))
     check_specs(ctx, specs)
+    # SparseGrid (array-index compaction of a nest-flattened grid): oracle only
+    sparse = [dict(kind="sparse", grid=_REG[2], refine=[[1, 2], [2, 3]]), dict(kind="sparse", grid=_REG[3], refine=[[2, 3], [1, 2]]),
+              dict(kind="sparse", grid=dict(kind="hp", nside0=1, depth=2), refine=[[1, 3], [1, 2]])]
+    for sp in sparse[:ctx.n(2, 3)]:
+        ctx.case(dict(spec=sp), True)
+        ctx.stat("kind:sparse")
+        r = oracle(dict(spec=sp))
+        if r:
+            ctx.counterexample(dict(spec=sp), *r)
     ctx.extra["exhaustive_per_grid"] = "every index of every level of every generated grid"
 
 
